@@ -865,7 +865,7 @@ def c13(tier):
         path, n = export_replay(res, "MCReader.tla", cfgt, "MCReader_" + fmt)
         files.append(path)
     allf = os.path.join(res.wd, "files.jsonl")
-    # thorough tier: all files of <= 4 lines, and one in eight (seeded) of the ~3.5 million files of 5 lines (memory of the harness and of
+    # thorough tier: all files of <= 4 lines, and one in sixteen (seeded) of the ~6.6 million files of 5 lines (memory of the harness and of
     # the driver; MCReader itself checks all of them against the readers' machines)
     with open(allf, "w") as f:
         k = 0
@@ -873,7 +873,7 @@ def c13(tier):
             for line in open(p):
                 if maxl == 5 and line.count(",") >= 5:       # {"fmt": .., "lines": [5 kinds]} has >= 5 commas
                     k += 1
-                    if (k + seed()) % 8 != 0:
+                    if (k + seed()) % 16 != 0:
                         continue
                 f.write(line)
     out = os.path.join(res.wd, "io.ndjson")
@@ -902,7 +902,7 @@ def c13(tier):
                 "corruption of well-formed files, raw random bytes and token soups (totality only); non-trivial = accepted file of >= 3 lines, "
                 "or a distinct (format, origin, length, outcome) fuzz case" % maxl)
     res.exhaustive = False
-    res.extra["exhaustive_part"] = "all abstract files of <= 4 lines per format" + (" and 1/8 of those of 5 lines" if maxl == 5 else "")
+    res.extra["exhaustive_part"] = "all abstract files of <= 4 lines per format" + (" and 1/16 of those of 5 lines" if maxl == 5 else "")
     res.assumptions = ["line kinds' concrete text as in harness/src/io.rs", "inputs on which the property is silent are classed 'unspecified' (totality only)"]
     return res.finish()
 
